@@ -26,7 +26,7 @@ FUNCTIONS = ['pymeeus/Sun.py:Sun.get_equinox_solstice', 'pymeeus/Sun.py:Sun.equa
              'pymeeus/Epoch.py:Epoch.__iadd__', 'pymeeus/Epoch.py:Epoch.__isub__']
 
 MANIFEST = dict(
-    text=("Lean 4 theorems (Props/C14.lean, 24) about the real-arithmetic model of Sun.get_equinox_solstice, "
+    text=("Lean 4 theorems (Props/C14.lean, 40) about the real-arithmetic model of Sun.get_equinox_solstice, "
           "Sun.equation_of_time, Epoch.rise_set and times_rise_transit_set: ValueError exactly outside years "
           "-1000..3000 and for a bad target, Meeus' tables 27.A/27.B selected as documented; for ANY solar "
           "longitude function, if the season loop exits the returned instant is the last one the longitude was "
@@ -38,6 +38,15 @@ MANIFEST = dict(
           "[-1,1]; for every accepted latitude, height and date rise_set raises ValueError exactly when |lat + delta| > 90 "
           "- 0.83 - dip, delta the sunrise equation's own declination for that day (the listed midnight-sun finding, "
           "characterised), hence never under |lat| + 23.44 + 0.83 + dip <= 90; times_rise_transit_set returns no times iff the body at its middle position never reaches h0. "
+          "Also proved: Meeus' APPROXIMATE instants of every year are in order, 88-95 days apart, and 365.2-365.3 days "
+          "from those of the next year incl. the table switch 999/1000 (the clause for the returned instants stays "
+          "measured); the direction of the season correction; the mean longitude L0 of equation_of_time is Meeus 28.2 "
+          "coefficient by coefficient and the returned (m, s) are those of 4(L0 - 0.0057183 - alpha + dpsi cos eps) reduced "
+          "to +-720 min; the interpolation uses differences wrapped to +-180 degrees for all tabular values; the "
+          "refinement is the second iterate, its transit correction is -H/360 with H in +-180 degrees; the latitude and "
+          "negative-height guards of rise_set; rise_set depends on the civil day of the epoch only; at the returned hour "
+          "angle the sunrise equation's own Sun is exactly at the standard altitude (equatorial2horizontal's formula), and "
+          "so is a body at the start estimates of times_rise_transit_set; ZeroDivisionError at a pole. "
           "The model's binary64 instantiation agrees with CPython bit for bit on every sampled call (the season loop "
           "both fed the solar longitudes the implementation saw and run from the year alone on the C08 model of the "
           "Sun's apparent position). All numerical clauses (1e-5 degree, 88-95 d, "
